@@ -77,13 +77,48 @@ var allTypes = []midi.Type{midi.UnknownMsg, midi.RealTimeMsg, midi.SysCommonMsg,
 	smf.MetaLyricMsg, smf.MetaTextMsg, smf.MetaMarkerMsg, smf.MetaPortMsg, smf.MetaSeqNumberMsg, smf.MetaSeqDataMsg, smf.MetaTempoMsg, smf.MetaTimeSigMsg,
 	smf.MetaTrackNameMsg, smf.MetaSMPTEOffsetMsg, smf.MetaUndefinedMsg, smf.MetaProgramNameMsg}
 
+// kept is a copy of a message taken before it is queried (no allocation for the short strings of the exhaustive sweep)
+type kept struct {
+	n     int
+	small [8]byte
+	big   []byte
+}
+
+func keepBytes(b []byte) (k kept) {
+	k.n = len(b)
+	if len(b) <= len(k.small) {
+		copy(k.small[:], b)
+	} else {
+		k.big = append([]byte(nil), b...)
+	}
+	return
+}
+
+func (k *kept) bytes() []byte {
+	if k.big != nil {
+		return k.big
+	}
+	return k.small[:k.n]
+}
+
+func (k *kept) same(b []byte) bool { return bytes.Equal(k.bytes(), b) }
+
 // classifyMidi checks the C08 predicates on one byte string seen as midi.Message.
 // It returns the category name (for coverage).
 func classifyMidi(c *mon.Ctx, b []byte) string {
 	m := midi.Message(b)
 	cat := ""
+	keep := keepBytes(b)
 	c.Guard("panic:midi.Message", mon.Hex(b), func() {
 		t := m.Type()
+		defer func() {
+			// asking is read-only: the same message classified once more, after every query above, is the same message
+			if !keep.same(b) {
+				c.Violation("changed-by-query:midi", fmt.Sprintf("midi.Message % X reads % X after its type, categories, accessors, derived views and string form were asked for", keep.bytes(), b), mon.Hex(keep.bytes()), mon.Hex(keep.bytes()), mon.Hex(b))
+			} else if t2 := m.Type(); t2 != t {
+				c.Violation("type-changed-by-query:midi", fmt.Sprintf("midi.Message % X reported type %v, and %v after its accessors were asked", b, t, t2), mon.Hex(b), t.String(), t2.String())
+			}
+		}()
 		n := 0
 		for _, x := range []struct {
 			name string
@@ -147,8 +182,16 @@ func classifyMidi(c *mon.Ctx, b []byte) string {
 func classifySMF(c *mon.Ctx, b []byte) string {
 	m := smf.Message(b)
 	cat := ""
+	keep := keepBytes(b)
 	c.Guard("panic:smf.Message", mon.Hex(b), func() {
 		t := m.Type()
+		defer func() {
+			if !keep.same(b) {
+				c.Violation("changed-by-query:smf", fmt.Sprintf("smf.Message % X reads % X after its type, categories, accessors, derived views and string form were asked for", keep.bytes(), b), mon.Hex(keep.bytes()), mon.Hex(keep.bytes()), mon.Hex(b))
+			} else if t2 := m.Type(); t2 != t {
+				c.Violation("type-changed-by-query:smf", fmt.Sprintf("smf.Message % X reported type %v, and %v after its accessors were asked", b, t, t2), mon.Hex(b), t.String(), t2.String())
+			}
+		}()
 		n := 0
 		for _, x := range []struct {
 			name string
